@@ -12,6 +12,7 @@ CONSTANTS
   MaxCancel = 1
   MaxSpur = 0
   Endings = {"eof", "ctxdrop", "srvdisc", "handles"}
+  SeiSet = {"never"}
   Dev = {}
 VIEW view
 CONSTRAINT Proviso
